@@ -390,6 +390,10 @@ def run(w, rep, tier):
     # property is the Shepperd rule above composed with "SO3Mrp.from_Quat keeps the rotation matrix" (both signs of q0)
     from .c07 import check_pairs
     check_pairs(w, rep, tier, only={("SO3Quat", "SO3Mrp")}, RP="C01.right-inverse", RA="C01.API")
+    # Euler product, inverse and X*identity all end in SO3EulerB321.from_Matrix (default product of SO3LieGroup): outside the
+    # documented 1e-3 rad gimbal band the regular branch must be taken (rule shared with C07.euler; seeded C01-6)
+    from .c07 import check_euler_band_rule
+    check_euler_band_rule(w, rep, "C01.default-product")
     check_default_product(w, rep)
     prods = [("SO3Mrp*R3", ["SO3Mrp", "R3"]), ("SO3Quat*R3", ["SO3Quat", "R3"]), ("SE2*R2*SO2", ["SE2", "R2", "SO2"])]
     if tier == "thorough":
